@@ -248,12 +248,17 @@ class PythonASTOptimizer(ast.NodeTransformer):
         """Eliminate dead code from except try bodies."""
         new_node = self.generic_visit(node)
         assert isinstance(new_node, ast.Try)
+        new_finalbody = _filter_dead_code(new_node.finalbody)
+        if not new_finalbody and not new_node.handlers:
+            # Python does not accept a `try` with neither handlers nor a `finally` clause;
+            # keep an empty clause if every statement of it was eliminated
+            new_finalbody = [ast.Pass()]
         return ast.copy_location(
             ast.Try(
                 body=_filter_dead_code(new_node.body),
                 handlers=new_node.handlers,
                 orelse=_filter_dead_code(new_node.orelse),
-                finalbody=_filter_dead_code(new_node.finalbody),
+                finalbody=new_finalbody,
             ),
             new_node,
         )
